@@ -147,3 +147,20 @@ Theorem acyclic_passes_loader : forall G0, wf_refs G0 -> ~ cyclic (all_down G0) 
 Proof. intros G0 WF AC. destruct (Cycle.load G0) as [l|e] eqn:E; [eauto|]. exfalso.
   pose proof (load_iff G0 WF) as [H1 _]. pose proof (load_total G0 WF) as [T1 T2].
   apply AC, H1. rewrite E. destruct e; try reflexivity; congruence. Qed.
+
+(* ---------- sessions ---------- *)
+Theorem session_decider_sound : forall l, check_cmds l tt = true -> Cmds_hold l.
+Proof. intros l. unfold check_cmds, Cmds_hold. rewrite andb_true_iff, forallb_forall. intros [_ H].
+  apply Forall_forall. intros p Hp. apply decider_sound. apply H; auto. Qed.
+
+Theorem session_model_holds : forall rows cmds, Cmds_hold (run_session rows cmds) /\ chained (run_session rows cmds) = true.
+Proof. intros rows cmds. revert rows. induction cmds as [|c rest IH]; intros rows; cbn [run_session].
+  - split; [constructor|reflexivity].
+  - destruct (IH (rows_after (run_command (with_rows c rows)))) as [H1 H2]. split.
+    + constructor; auto. apply model_holds.
+    + destruct rest as [|c' rest']; [reflexivity|].
+      change (run_session (rows_after (run_command (with_rows c rows))) (c' :: rest')) with
+        ((with_rows c' (rows_after (run_command (with_rows c rows))), run_command (with_rows c' (rows_after (run_command (with_rows c rows)))))
+           :: run_session (rows_after (run_command (with_rows c' (rows_after (run_command (with_rows c rows)))))) rest') in *.
+      cbn [chained fst snd] in *. apply andb_true_iff. split; [|exact H2].
+      cbn [with_rows c_rows]. unfold same_rowsb. apply forallb_forall. intros x _. apply Nat.eqb_refl. Qed.
